@@ -113,7 +113,7 @@ func (e *Engine) exact(sc *Script) bool { return sc.Tr == "inproc" || sc.Tr == "
 // rest waits for the system to come to rest.
 func (e *Engine) rest(sc *Script) bool {
 	if e.exact(sc) {
-		return quiesce(e.self, 3, 20*time.Microsecond, 5*time.Second)
+		return quiesce(e.self, 2, 0, 5*time.Second)
 	}
 	return quiesce(e.self, 8, 300*time.Microsecond, 10*time.Second)
 }
@@ -160,7 +160,7 @@ func (e *Engine) blockedOf(cs []*callRun) (map[int][][]string, int) {
 	out := map[int][][]string{}
 	n := 0
 	for _, c := range cs {
-		for _, a := range []*actor{c.cs, c.cr, c.h} {
+		for _, a := range []*actor{c.cs, c.cs2, c.cr, c.h} {
 			if cur, _ := a.cur.Load().(string); cur != "" && cur != "WaitCtx" {
 				out[c.id] = append(out[c.id], []string{a.side, cur})
 				n++
@@ -197,6 +197,7 @@ func (e *Engine) RunSched(sc *Script) []Ev {
 	c := e.setupCall(sc, 1, sc.Seed)
 	cs := []*callRun{c}
 	go c.clientLoop(c.cs)
+	go c.clientLoop(c.cs2)
 	go c.clientLoop(c.cr)
 	if sc.Kind != "unary" {
 		c.openStream()
@@ -216,6 +217,8 @@ func (e *Engine) RunSched(sc *Script) []Ev {
 			switch who {
 			case "cs":
 				a = c.cs
+			case "cs2":
+				a = c.cs2
 			case "cr":
 				a = c.cr
 			case "h":
@@ -262,7 +265,7 @@ func (e *Engine) winddown(sc *Script, cs []*callRun) {
 			}
 		default:
 		}
-		for _, a := range []*actor{c.cs, c.cr} {
+		for _, a := range []*actor{c.cs, c.cs2, c.cr} {
 			if !a.isBusy() {
 				a.cmd <- "fin"
 			}
@@ -273,31 +276,29 @@ func (e *Engine) winddown(sc *Script, cs []*callRun) {
 }
 
 func (e *Engine) finishRun(sc *Script, cs []*callRun) []Ev {
-	// goroutine census: nothing of the library may be left once the calls
-	// are over (retried: goroutines need a moment to exit)
-	var n int
-	var tops []string
-	for i := 0; i < 200; i++ {
-		n, tops = libGoroutines(e.exemptCopy())
-		if n == 0 {
-			break
-		}
-		time.Sleep(time.Duration(i+1) * 100 * time.Microsecond)
-	}
 	stuck := false
 	for _, c := range cs {
-		for _, a := range []*actor{c.cs, c.cr, c.h} {
+		for _, a := range []*actor{c.cs, c.cs2, c.cr, c.h} {
 			if cur, _ := a.cur.Load().(string); cur != "" {
 				stuck = true
 			}
 		}
 	}
 	if !stuck {
-		if n > 0 {
-			// give it the full grace period before calling it a leak
-			for i := 0; i < 50 && n > 0; i++ {
-				time.Sleep(100 * time.Millisecond)
-				n, tops = libGoroutines(e.exemptCopy())
+		// goroutine census: nothing of the library may be left once the
+		// calls are over; goroutines get up to 5 s to exit. Nothing is
+		// exempt here: a handler that has not returned keeps the run open.
+		var n int
+		var tops []string
+		for i := 0; i < 400; i++ {
+			n, tops = libGoroutines(nil)
+			if n == 0 {
+				break
+			}
+			if i < 100 {
+				time.Sleep(50 * time.Microsecond)
+			} else {
+				time.Sleep(15 * time.Millisecond)
 			}
 		}
 		for _, c := range cs {
@@ -307,6 +308,9 @@ func (e *Engine) finishRun(sc *Script, cs []*callRun) []Ev {
 				e.tr.Emit(c.id, "Census", "n", 0)
 			}
 		}
+		if n > 0 {
+			stuck = true
+		}
 	}
 	for _, c := range cs {
 		e.tr.Emit(c.id, "End")
@@ -314,9 +318,9 @@ func (e *Engine) finishRun(sc *Script, cs []*callRun) []Ev {
 		c.keep = append(c.keep, c.stream)
 	}
 	if stuck {
-		// actors are parked inside the library for good; this process can
-		// not be trusted for further exact runs
-		e.infraErr = "stuck actors after " + sc.ID
+		// goroutines are parked inside the library for good; this process
+		// can not be trusted for further runs
+		e.infraErr = "stuck after " + sc.ID
 	}
 	return e.tr.Take()
 }
@@ -342,8 +346,10 @@ func (e *Engine) RunFree(sc *Script) []Ev {
 				c.openStream()
 			}
 			go c.clientLoop(c.cs)
+			go c.clientLoop(c.cs2)
 			go c.clientLoop(c.cr)
 			<-c.cs.exited
+			<-c.cs2.exited
 			<-c.cr.exited
 		}()
 	}
